@@ -42,9 +42,14 @@ def confirm(d):
         (tests / r.name).unlink()
     if made:
         shutil.rmtree(tests)
-    rc, out = sh("cargo test --workspace --no-fail-fast --offline", wt)
-    passed = sum(int(x) for x in re.findall(r"test result: \w+\. (\d+) passed", out))
-    failed = sum(int(x) for x in re.findall(r"test result: \w+\. \d+ passed; (\d+) failed", out))
+    for attempt in range(3):  # two env-var tests in cascette-protocol::retry are flaky under load
+        rc, out = sh("cargo test --workspace --no-fail-fast --offline", wt)
+        passed = sum(int(x) for x in re.findall(r"test result: \w+\. (\d+) passed", out))
+        failed = sum(int(x) for x in re.findall(r"test result: \w+\. \d+ passed; (\d+) failed", out))
+        names = re.findall(r"^test (\S+) \.\.\. FAILED", out, re.M)
+        res.setdefault("suite_failures_seen", []).append(names)
+        if rc == 0 or not all("retry::tests::" in n for n in names):
+            break
     res["suite_with_change"] = f"rc={rc} passed={passed} failed={failed}"
     sh("git checkout -- . && git clean -fdq crates", wt)
     ok = res["demo_without_change"] == "pass" and res["demo_with_change"] == "fail" and rc == 0 and failed == 0
